@@ -11,7 +11,9 @@ model checks for admissibility.
 
 Oracle: the property statement evaluated on the recorded history (Python only).
 """
+import copy
 import math
+import pickle
 import random
 import warnings
 from fractions import Fraction
@@ -53,7 +55,9 @@ THEOREMS = [
 RULE = ("histories of ask / tell (plus about 10 % out-of-order and ask_dqd / tell_dqd calls) on a BanditScheduler with "
         "pool 1-8, num_active 1..pool, zeta in {0, 0.05, 1, 10}, both reselect modes, both add modes, with/without "
         "result archive, spies with and without a restarts counter restarting at scripted tells, batch sizes 0-4 "
-        "changing every iteration; with/without extra fields passed to tell (routed like objective and measures), "
+        "changing every iteration; pickle round trips / deep copies of the scheduler between ask and tell and after tell "
+        "(the run continues on the restored object); a stratum with two BanditSchedulers alive at once, calls "
+        "interleaved; with/without extra fields passed to tell (routed like objective and measures), "
         "main archive float64 or float32 with evaluation values not representable in float32; strata by what the archive accepts: everything, something, nothing at all "
         "(threshold_min above all objectives), nothing for a stretch then something, plus a restart-heavy and a "
         "protocol stratum, and a zeta = 0 stratum (each row acceptable with one probability, per-emitter batch sizes 1-8, so that close "
@@ -62,6 +66,8 @@ RULE = ("histories of ask / tell (plus about 10 % out-of-order and ask_dqd / tel
         "per distinct op list")
 PARTIAL = []
 ASSUMPTIONS = [
+    "a scheduler restored by pickle.loads(pickle.dumps(s)) or copy.deepcopy(s) must behave exactly like the original "
+    "would have; schedulers alive at the same time must not influence each other",
     "constructor options whose value equals the documented default (reselect='terminated', zeta=0.05, "
     "result_archive=None, add_mode='batch'; archive extra_fields None) are omitted from the call; model and oracle use "
     "the documented value",
@@ -174,9 +180,62 @@ def sols_of(arr):
     return [(int(a), int(b), int(c)) for a, b, c in arr]
 
 
+_CLS = {}
+
+
+def _classes():
+    """Spy emitters as module-level classes (created on first use), so that a BanditScheduler holding them survives
+    pickle / deepcopy; they record into `self._log` and read the scripted restarts from `self._ctl`, both shared by
+    all spies (and archives) of one scheduler."""
+    if _CLS:
+        return _CLS
+    from ribs.emitters import EmitterBase
+
+    class BSpy(EmitterBase):
+
+        def __init__(self, archive, idx, log, ctl):
+            EmitterBase.__init__(self, archive, solution_dim=SOLDIM, bounds=None)
+            self.idx = idx
+            self.next_n = 0
+            self.cur_it = -1
+            self._log, self._ctl = log, ctl
+
+        @property
+        def batch_size(self):
+            return 7
+
+        def ask(self):
+            n = self.next_n
+            out = np.zeros((n, SOLDIM))
+            out[:, 0] = self.idx
+            out[:, 1] = self.cur_it
+            out[:, 2] = np.arange(n)
+            self._log.append({"ev": "ask", "em": self.idx, "out": out.copy()})
+            return out
+
+        def tell(self, solution, objective, measures, add_info, **fields):
+            self._log.append({"ev": "tell", "em": self.idx, "solution": np.array(solution),
+                              "objective": np.array(objective), "measures": np.array(measures),
+                              "fields": {k: np.array(v) for k, v in fields.items()},
+                              "add_info": {k: np.array(v) for k, v in add_info.items()}})
+            if self.idx in self._ctl["restart_now"] and hasattr(self, "restarts"):
+                self.restarts += 1
+
+    class BCounterSpy(BSpy):
+
+        def __init__(self, archive, idx, log, ctl, start):
+            BSpy.__init__(self, archive, idx, log, ctl)
+            self.restarts = start
+
+    for name, c in {"BSpy": BSpy, "BCounterSpy": BCounterSpy}.items():
+        c.__module__, c.__qualname__, c.__name__ = __name__, name, name
+        globals()[name] = c
+        _CLS[name] = c
+    return _CLS
+
+
 def build(case):
     from ribs.archives import GridArchive
-    from ribs.emitters import EmitterBase
     from ribs.schedulers import BanditScheduler
     from props.c04 import recording
     log = []
@@ -192,43 +251,9 @@ def build(case):
     archive = mk(False, **kw)
     result = mk(True) if case["result"] else None
     ctl = {"restart_now": []}
-
-    class Spy(EmitterBase):
-
-        def __init__(self, idx):
-            EmitterBase.__init__(self, archive, solution_dim=SOLDIM, bounds=None)
-            self.idx = idx
-            self.next_n = 0
-            self.cur_it = -1
-
-        @property
-        def batch_size(self):
-            return 7
-
-        def ask(self):
-            n = self.next_n
-            out = np.zeros((n, SOLDIM))
-            out[:, 0] = self.idx
-            out[:, 1] = self.cur_it
-            out[:, 2] = np.arange(n)
-            log.append({"ev": "ask", "em": self.idx, "out": out.copy()})
-            return out
-
-        def tell(self, solution, objective, measures, add_info, **fields):
-            log.append({"ev": "tell", "em": self.idx, "solution": np.array(solution),
-                        "objective": np.array(objective), "measures": np.array(measures),
-                        "fields": {k: np.array(v) for k, v in fields.items()},
-                        "add_info": {k: np.array(v) for k, v in add_info.items()}})
-            if self.idx in ctl["restart_now"] and hasattr(self, "restarts"):
-                self.restarts += 1
-
-    class CounterSpy(Spy):
-
-        def __init__(self, idx, start):
-            Spy.__init__(self, idx)
-            self.restarts = start
-
-    spies = [CounterSpy(i, c["start"]) if c["counter"] else Spy(i) for i, c in enumerate(case["emitters"])]
+    cl = _classes()
+    spies = [cl["BCounterSpy"](archive, i, log, ctl, c["start"]) if c["counter"] else cl["BSpy"](archive, i, log, ctl)
+             for i, c in enumerate(case["emitters"])]
     # options whose value is the documented default (reselect="terminated", zeta=0.05, result_archive=None,
     # add_mode="batch") are left to the constructor; the model and the oracle use the documented value
     opts = {}
@@ -268,6 +293,7 @@ def gen_with(kind, rng, style="plain"):
     p_illegal = 0.35 if style == "protocol" else rng.choice([0.0, 0.0, 0.1])
     p_restart = {"plain": 0.25, "restarts": 0.5, "protocol": 0.2}[style]
     sizes = rng.choice([[0, 1, 2, 3, 4], [1, 2], [2], [0, 0, 1, 3]])
+    p_snap = rng.choice([0.0, 0.0, 0.1, 0.25])
     cold = rng.randint(3, iters) if kind == "nothing-then-some" else 0
     ops = []
     for t in range(iters):
@@ -276,6 +302,10 @@ def gen_with(kind, rng, style="plain"):
                 bad = rng.choice(["askdqd", "telldqd", "tell" if name == "ask" else "ask"])
                 ops.append(mk_op(bad, rng, n, sizes, p_restart, kind, t, cold))
             ops.append(mk_op(name, rng, n, sizes, p_restart, kind, t, cold))
+            if rng.random() < p_snap:
+                # checkpoint (pickle round trip) / deep copy between ask and tell or after a tell; the run goes on
+                # with the restored scheduler
+                ops.append({"op": rng.choice(["pickle", "pickle", "deepcopy"])})
     case["ops"] = ops
     return case
 
@@ -397,11 +427,27 @@ def exc_kind(e):
 
 
 def run_case(case):
+    drv = Driver("bandit")
+    co = _run_co(case, drv)
+    try:
+        next(co)
+        for it, op in enumerate(case["ops"]):
+            co.send((it, op))
+        co.send(None)
+    except StopIteration as e:
+        return e.value
+    finally:
+        drv.close()
+    raise AssertionError("unreachable")
+
+
+def _run_co(case, drv):
+    """One BanditScheduler with its oracle state and its model instance, as a coroutine: it is sent `(op index, op)`
+    for every call made on this scheduler and `None` at the end; StopIteration carries `Failure | None`."""
     sched, archive, result, spies, log, ctl = build(case)
     n, k, zeta = case["pool"], case["num_active"], case["zeta"]
     has_counter = [c["counter"] for c in case["emitters"]]
-    drv = Driver("bandit")
-    try:
+    if True:  # pylint: disable=using-constant-test
         drv.ask(f"new pool={n} active={k} resel={case['reselect']} mode={case['mode']} "
                 f"result={1 if result is not None else 0}")
         # the harness's own record of the public history
@@ -412,9 +458,37 @@ def run_case(case):
         seen_restarts = [0] * n  # counter values at the previous accepted ask
         counter = 0.0
         n_asks = 0
-        for it, op in enumerate(case["ops"]):
+        while True:
+            nxt = yield
+            if nxt is None:
+                break
+            it, op = nxt
             name = op["op"]
             where = f"op#{it} {name}"
+            if name in ("pickle", "deepcopy"):
+                # checkpoint / copy at this protocol position; the run continues on the restored scheduler, which
+                # must behave exactly like the original would have (model and oracle state carry on)
+                act0 = [bool(x) for x in sched.active]
+                cnt0 = ([float(x) for x in sched._selection], [float(x) for x in sched._success])  # pylint: disable=protected-access
+                try:
+                    with warnings.catch_warnings():
+                        warnings.simplefilter("ignore")
+                        sched = pickle.loads(pickle.dumps(sched)) if name == "pickle" else copy.deepcopy(sched)
+                except Exception as e:  # pylint: disable=broad-except
+                    return Failure("oracle", f"{where}: the scheduler cannot be restored: {type(e).__name__}: {e}")
+                archive = sched.archive
+                result = None if result is None else sched.result_archive
+                spies = list(sched.emitter_pool)
+                log, ctl = spies[0]._log, spies[0]._ctl  # pylint: disable=protected-access
+                for a in (archive, result):
+                    if a is not None:
+                        a._log = log  # pylint: disable=protected-access
+                cnt1 = ([float(x) for x in sched._selection], [float(x) for x in sched._success])  # pylint: disable=protected-access
+                if [bool(x) for x in sched.active] != act0 or cnt1 != cnt0 or len(spies) != n:
+                    return Failure("oracle", f"{where}: the restored scheduler has another active set / other counts "
+                                   f"than the original ({act0}, {cnt0} vs {[bool(x) for x in sched.active]}, {cnt1})")
+                stat(f"snapshot:{name}:{phase}")
+                continue
             in_order = name == "ask" and phase != "ask" or name == "tell" and phase == "ask"
             before = [bool(x) for x in sched.active]
             mark = len(log)
@@ -656,8 +730,47 @@ def run_case(case):
                         return Failure("corr", f"{where}: counts impl sel={nl(sched._selection)} "  # pylint: disable=protected-access
                                        f"succ={nl(sched._success)} model sel={st['sel']} succ={st['succ']}")  # pylint: disable=protected-access
         return None
+
+
+def gen_multi(rng):
+    """two BanditSchedulers alive at once (own archives, own pools, own batch sizes), calls interleaved"""
+    subs, streams = [], []
+    for i in range(2):
+        sub = gen_with(rng.choice(["some", "all", "nothing-then-some"]), rng,
+                       style=rng.choice(["plain", "plain", "restarts"]))
+        streams.append([dict(op, s=i) for op in sub.pop("ops")])
+        subs.append(sub)
+    ops = []
+    while any(streams):
+        i = rng.choice([j for j in range(2) if streams[j]])
+        for _ in range(rng.choice([1, 1, 1, 2])):
+            if streams[i]:
+                ops.append(streams[i].pop(0))
+    return {"multi": subs, "ops": ops}
+
+
+def run_multi(case):
+    drvs = [Driver("bandit") for _ in case["multi"]]
+    cos = [_run_co(dict(sub, ops=[]), d) for sub, d in zip(case["multi"], drvs)]
+    try:
+        for co in cos:
+            next(co)
+        for it, op in enumerate(case["ops"]):
+            try:
+                cos[op["s"]].send((it, op))
+            except StopIteration as e:
+                return None if e.value is None else Failure(e.value.kind, f"[scheduler {op['s']} of 2] {e.value.what}",
+                                                            key=e.value.key)
+        for i, co in enumerate(cos):
+            try:
+                co.send(None)
+            except StopIteration as e:
+                if e.value is not None:
+                    return Failure(e.value.kind, f"[scheduler {i} of 2] {e.value.what}", key=e.value.key)
+        return None
     finally:
-        drv.close()
+        for d in drvs:
+            d.close()
 
 
 def run(ctx):
@@ -678,13 +791,14 @@ def _run(ctx, quick):
     ctx.explore("nothing-inserted", lambda r: gen_with("nothing", r), run_case, ctx.n(100, 5000),
                 nontrivial=nontrivial, time_budget=tb(4, 60))
     ctx.explore("nothing-then-some", lambda r: gen_with("nothing-then-some", r), run_case, ctx.n(100, 5000),
-                nontrivial=nontrivial, time_budget=tb(4, 60))
+                nontrivial=nontrivial, time_budget=tb(3, 60))
     ctx.explore("restarts", lambda r: gen_with("some", r, style="restarts"), run_case, ctx.n(100, 5000),
-                nontrivial=nontrivial, time_budget=tb(4, 60))
+                nontrivial=nontrivial, time_budget=tb(3, 60))
     ctx.explore("protocol", lambda r: gen_with("some", r, style="protocol"), run_case, ctx.n(60, 2000),
                 nontrivial=nontrivial, time_budget=tb(3, 30))
+    ctx.explore("several-schedulers", gen_multi, run_multi, ctx.n(40, 2000), time_budget=tb(3, 40))
     ctx.explore("zeta-zero", gen_zeta0, run_case, ctx.n(80, 4000), nontrivial=nontrivial, time_budget=tb(4, 50))
 
 
 def replay(ctx, case):
-    return run_case(case)
+    return run_multi(case) if case.get("multi") else run_case(case)
